@@ -77,8 +77,9 @@ def handle (case obs : List String) : String × String :=
               && frs.all (fun fp => fp.1 == 0 || c.cfg.enc.isSome)
               && within.all (fun m => m.head? != some 255)
           let st := firstStatus obs
-          if !allValid then verdict [("no-panic", !obs.any isBad)]
+          if !allValid then verdict [("no-panic", !obs.any isBad), ("no-oversize-reservation", !obs.contains "a1")]
           else verdict [("no-panic", !obs.any isBad),
+                   ("no-oversize-reservation", !obs.contains "a1"),
                    ("accepted-iff-within-limit", obsMsgs (beforeStatus obs) == within),
                    ("oversized-refused-with-out-of-range", !over || st == some "e11:tooLargeDec")]
       | _ => "fail:bad-case"
